@@ -73,6 +73,8 @@ def run(ctx: Ctx) -> None:
                 key = norm(n)
                 if (q, key) in SAFE_TABLE:
                     ctx.ok("X1", f"{q} | {key}", repo.loc(mod, n), "tabled: " + SAFE_TABLE[(q, key)], nontrivial=False)
+                elif _index_stable_replacement(fn, n):
+                    ctx.ok("X1", f"{q} | {key}", repo.loc(mod, n), "the index was taken from enumerate() of this very list, and every pop(i) is followed at once by insert(i, ...): the list keeps its length (C15 I4)")
                 elif _pops_own_key(fn, n):
                     ctx.ok("X1", f"{q} | {key}", repo.loc(mod, n), "the key popped is a loop variable ranging over a snapshot of that dictionary's own keys")
                 elif len(n.args) >= 2:
@@ -93,6 +95,10 @@ def run(ctx: Ctx) -> None:
                     ctx.ok("X1", f"{q} | raise {name}", repo.loc(mod, n), "Lark family")
                 elif (q, name) in RAISE_TABLE:
                     ctx.ok("X1", f"{q} | raise {name}", repo.loc(mod, n), "tabled: " + RAISE_TABLE[(q, name)], nontrivial=False)
+                elif _reraises_handled(fn, n):
+                    ctx.ok("X1", f"{q} | raise {name}", repo.loc(mod, n), "re-raises the exception being handled (the name bound by the enclosing except clause)", nontrivial=False)
+                elif name == "ValueError" and _under_depth_limit(fn, n):
+                    ctx.ok("X1", f"{q} | raise {name}", repo.loc(mod, n), "include nesting beyond the limit (raise guarded by a counter reaching an integer constant): the error C15 prescribes", nontrivial=False)
                 else:
                     ctx.finding("X1", f"{q} | raise {name}", repo.loc(mod, n), f"raises {name}, which is not a Lark error and not one of the errors C15/C20 prescribe")
 
@@ -373,3 +379,75 @@ def _index_guarded(fn: ast.FunctionDef, sub: ast.Subscript, idx: int) -> tuple[b
             if shrink == 0 and facts_[id(st)] >= need:
                 return True, f"{base} is a local list holding at least {facts_[id(st)]} element(s) on every path to this statement (forward length analysis, loops at fixpoint)"
     return False, "no dominating length test"
+
+
+def _index_stable_replacement(fn: ast.FunctionDef, pop: ast.Call) -> bool:
+    """``L.pop(i)`` directly followed by ``L.insert(i, ...)``, with ``i`` ranging over the keys of a local
+    dictionary that is only ever filled under indexes taken from ``enumerate(L)``: every ``i`` is a valid index
+    and the list keeps its length, whatever the function is called."""
+    if not (isinstance(pop.func.value, ast.Name) and len(pop.args) == 1 and isinstance(pop.args[0], ast.Name)):
+        return False
+    L, i = pop.func.value.id, pop.args[0].id
+    # the statement after the pop, in the same block
+    follows = False
+    for par in ast.walk(fn):
+        for fld in ("body", "orelse", "finalbody"):
+            blk = getattr(par, fld, None)
+            if not isinstance(blk, list):
+                continue
+            for a, b in zip(blk, blk[1:]):
+                if isinstance(a, ast.Expr) and a.value is pop and isinstance(b, ast.Expr) and isinstance(b.value, ast.Call) and isinstance(b.value.func, ast.Attribute) and b.value.func.attr == "insert" and dotted(b.value.func.value) == L and b.value.args and isinstance(b.value.args[0], ast.Name) and b.value.args[0].id == i:
+                    follows = True
+    if not follows:
+        return False
+    # i ranges over the keys of a local dict D
+    D = None
+    for n in ast.walk(fn):
+        if isinstance(n, ast.For):
+            t = n.target
+            first = t.elts[0] if isinstance(t, ast.Tuple) and t.elts else t
+            if isinstance(first, ast.Name) and first.id == i and any(x is pop for x in ast.walk(n)):
+                it = n.iter
+                if isinstance(it, ast.Call) and isinstance(it.func, ast.Attribute) and it.func.attr in ("items", "keys") and isinstance(it.func.value, ast.Name):
+                    D = it.func.value.id
+                elif isinstance(it, ast.Name):
+                    D = it.id
+    if D is None:
+        return False
+    enum_idx = {n.target.elts[0].id for n in ast.walk(fn) if isinstance(n, ast.For) and isinstance(n.iter, ast.Call) and dotted(n.iter.func) == "enumerate" and n.iter.args and dotted(n.iter.args[0]) == L and isinstance(n.target, ast.Tuple) and n.target.elts and isinstance(n.target.elts[0], ast.Name)}
+    stores = [n for n in ast.walk(fn) if isinstance(n, ast.Subscript) and isinstance(n.ctx, ast.Store) and dotted(n.value) == D]
+    if not stores or not all(isinstance(st.slice, ast.Name) and st.slice.id in enum_idx for st in stores):
+        return False
+    # D is bound to an empty dict and not otherwise filled
+    binds = [st.value for st in ast.walk(fn) if isinstance(st, ast.Assign) and any(isinstance(t, ast.Name) and t.id == D for t in st.targets)]
+    return len(binds) == 1 and ((isinstance(binds[0], ast.Dict) and not binds[0].keys) or (isinstance(binds[0], ast.Call) and dotted(binds[0].func) in ("dict", "OrderedDict") and not binds[0].args and not binds[0].keywords))
+
+
+def _reraises_handled(fn: ast.FunctionDef, r: ast.Raise) -> bool:
+    """``raise ex`` inside ``except ... as ex`` (ex not rebound in the handler)."""
+    if not isinstance(r.exc, ast.Name):
+        return False
+    for h in ast.walk(fn):
+        if isinstance(h, ast.ExceptHandler) and h.name == r.exc.id and any(x is r for x in ast.walk(h)):
+            rebound = any(isinstance(x, ast.Name) and x.id == h.name and isinstance(x.ctx, ast.Store) for st in h.body for x in ast.walk(st))
+            return not rebound
+    return False
+
+
+def _under_depth_limit(fn: ast.FunctionDef, r: ast.Raise) -> bool:
+    """The raise is dominated by ``<counter> == N`` / ``>= N`` / ``> N`` with N an integer (literal or module
+    constant name) and <counter> a parameter of the function or an attribute of a local object."""
+    params = {a.arg for a in fn.args.args + fn.args.kwonlyargs}
+    try:
+        gs = guards_at(fn, r)
+    except AnalysisError:
+        return False
+    for g in gs:
+        t = g.test
+        if g.positive and isinstance(t, ast.Compare) and len(t.ops) == 1 and isinstance(t.ops[0], (ast.Eq, ast.GtE, ast.Gt)):
+            left_ok = (isinstance(t.left, ast.Name) and t.left.id in params) or (isinstance(t.left, ast.Attribute) and isinstance(t.left.value, ast.Name))
+            c = t.comparators[0]
+            right_ok = (isinstance(c, ast.Constant) and isinstance(c.value, int) and not isinstance(c.value, bool)) or (isinstance(c, ast.Name) and c.id.isupper())
+            if left_ok and right_ok:
+                return True
+    return False
